@@ -132,7 +132,7 @@ SUMMARY_RE = re.compile(r"(\d+) states generated, (\d+) distinct states found, (
 
 def tlc_model(cfg, tla, metadir, workers=8, timeout=1800, extra_env=None, capture_prefixes=()):
     """Run a bounded model exhaustively. Returns dict(states, transitions, ok, out_lines)."""
-    env = dict(os.environ, JAVA_TOOL_OPTIONS="-Xss256m -Xmx8g -XX:ParallelGCThreads=4")
+    env = dict(os.environ, JAVA_TOOL_OPTIONS="-Xss256m -Xmx16g -XX:ParallelGCThreads=4")
     if extra_env:
         env.update(extra_env)
     cmd = ["timeout", str(timeout), "tlc", "-workers", str(workers), "-metadir", metadir, "-cleanup",
